@@ -131,6 +131,7 @@ def prop_C03(run):
     run.floor("ERR5", "fallible call sites", n5, 300)
     rules_err.idx0(run, reach)
     rules_err.maybe_no_unwrap(run)
+    rules_err.no_panicking_env(run)
     import rules_asm, rules_mpt
     rules_asm.args_rules(run)
     rules_mpt.write_rules(run)
